@@ -578,7 +578,24 @@ def F_C05_2():
     return s.update_a(UNCHANGED) is not s
 
 
-ALL = [D17, D18, D19, D20, D21, D22, F_C08_1, F_C04_3, F_C05_1, F_C05_2, D1, D2, D3, D4, D5, D6, D7, D8, D9, D10, D11, D12, D13, D14, D15, D16,
+def D23():
+    "C19: a subclass with its own __new__ of a lazily bootstrapped spec class recurses on first instantiation"
+    @spec_class
+    class Base:
+        x: int = 1
+
+    class Sub(Base):
+        def __new__(cls, *args, **kwargs):
+            return super().__new__(cls)
+
+    try:
+        Sub(x=3)
+    except RecursionError:
+        return True
+    return False
+
+
+ALL = [D17, D18, D19, D20, D21, D22, D23, F_C08_1, F_C04_3, F_C05_1, F_C05_2, D1, D2, D3, D4, D5, D6, D7, D8, D9, D10, D11, D12, D13, D14, D15, D16,
        F_C01_1, F_C02_1, F_C04_1, F_C13_1, F_C07_1, F_C07_2, F_C07_3, F_C04_2, F_C01_2]
 
 if __name__ == "__main__":
